@@ -2,8 +2,10 @@ package fbbsim
 
 import (
 	"bytes"
+	"compress/gzip"
 	"encoding/json"
 	"fmt"
+	"io"
 	"strconv"
 	"testing"
 	"time"
@@ -43,6 +45,7 @@ type C04Fault struct {
 	MID   string      `json:"mid"`
 	Start int         `json:"start"` // offset of SOH in the unaltered stream
 	CSize int         `json:"csize"` // compressed size announced in the proposal
+	Gzip  bool        `json:"gzip,omitempty"`
 	Kind  string      `json:"kind"`
 }
 
@@ -81,6 +84,7 @@ type xfer struct {
 	Start, End int
 	MID        string
 	CSize      int
+	Gzip       bool // announced with FD: a gzip member instead of an LZHUF image
 }
 
 func locateTransfers(stream []byte, answers func(block int) []byte) []xfer {
@@ -88,6 +92,7 @@ func locateTransfers(stream []byte, answers func(block int) []byte) []xfer {
 	type prop struct {
 		mid   string
 		csize int
+		gzip  bool
 	}
 	var block []prop
 	var queue []prop // accepted proposals whose transfer is still to come
@@ -100,7 +105,7 @@ func locateTransfers(stream []byte, answers func(block int) []byte) []xfer {
 			}
 			x := xfer{Start: p, End: p + t.Len}
 			if len(queue) > 0 {
-				x.MID, x.CSize = queue[0].mid, queue[0].csize
+				x.MID, x.CSize, x.Gzip = queue[0].mid, queue[0].csize, queue[0].gzip
 				queue = queue[1:]
 			}
 			out = append(out, x)
@@ -117,7 +122,7 @@ func locateTransfers(stream []byte, answers func(block int) []byte) []xfer {
 		switch {
 		case len(f) == 6 && (string(f[0]) == "FC" || string(f[0]) == "FD"):
 			cs, _ := strconv.Atoi(string(f[4]))
-			block = append(block, prop{string(f[2]), cs})
+			block = append(block, prop{string(f[2]), cs, string(f[0]) == "FD"})
 		case len(line) >= 2 && line[:2] == "F>":
 			ans := answers(blockNo)
 			blockNo++
@@ -135,7 +140,7 @@ func locateTransfers(stream []byte, answers func(block int) []byte) []xfer {
 // refVerdict is the independent judgement of an altered stream: does a
 // reference receiver accept the transfer that starts at start as fully valid,
 // and what does it decode to?
-func refVerdict(altered []byte, start, csize int) (data []byte, ok bool, why string) {
+func refVerdict(altered []byte, start, csize int, gz bool) (data []byte, ok bool, why string) {
 	if start >= len(altered) {
 		return nil, false, "stream ends before the transfer"
 	}
@@ -148,6 +153,20 @@ func refVerdict(altered []byte, start, csize int) (data []byte, ok bool, why str
 	}
 	if len(t.Data) != csize {
 		return nil, false, fmt.Sprintf("%d data bytes, %d announced", len(t.Data), csize)
+	}
+	if gz {
+		// the standard library's gzip reader is the reference here: header,
+		// deflate stream, CRC-32 and length, one member, nothing behind it
+		zr, err := gzip.NewReader(bytes.NewReader(t.Data))
+		if err != nil {
+			return nil, false, "payload: " + err.Error()
+		}
+		zr.Multistream(false)
+		d, err := io.ReadAll(zr)
+		if err != nil {
+			return nil, false, "payload: " + err.Error()
+		}
+		return d, true, ""
 	}
 	d, err := decodeCodec.Decompress(t.Data)
 	if err != nil {
@@ -295,6 +314,15 @@ func genC04(tier string, r *core.Rand) C04Plan {
 			a.Msgs = a.Msgs[:2]
 		}
 		a.Gzip, b.Gzip = false, false
+		if r.Chance(0.3) {
+			// the gzip experiment on both sides (FD proposals); an attachment of
+			// random bytes ends up in stored deflate blocks, where a changed byte
+			// changes the content and nothing else
+			a.Gzip, b.Gzip = true, true
+			if len(a.Msgs) > 0 {
+				a.Msgs[0].Files = append(a.Msgs[0].Files, FileD{Name: "noise.bin", Data: r.Bytes(r.Range(200, 3000))})
+			}
+		}
 		b.Policy = nil
 		b.Msgs = nil
 		l := GenLink(r)
@@ -315,7 +343,7 @@ func genC04(tier string, r *core.Rand) C04Plan {
 func enumerateFaults(p C04Plan, x xfer, stream []byte) []C04Fault {
 	var fs []C04Fault
 	add := func(kind string, edits ...pipe.Edit) {
-		fs = append(fs, C04Fault{Edits: edits, MID: x.MID, Start: x.Start, CSize: x.CSize, Kind: kind})
+		fs = append(fs, C04Fault{Edits: edits, MID: x.MID, Start: x.Start, CSize: x.CSize, Gzip: x.Gzip, Kind: kind})
 	}
 	n := x.End - x.Start
 	for i := 0; i < n; i++ {
@@ -523,7 +551,7 @@ func execC04(t *testing.T, prop string, raw json.RawMessage, trace bool) core.Ou
 		}
 		// The reference receiver judges the bytes the Session really received:
 		// the altered stream as far as the sender got before the session ended.
-		want, accept, why := refVerdict(obs.seen, f.Start, f.CSize)
+		want, accept, why := refVerdict(obs.seen, f.Start, f.CSize, f.Gzip)
 		if obs.panicFrame != "" {
 			viol("panic", obs.panicFrame, fmt.Sprintf("damage %s at %v: Exchange panicked: %s", f.Kind, f.Edits, obs.panicMsg))
 			continue
